@@ -471,6 +471,9 @@ def match_dynamic_array_overflow_condition(cond: BitVecRef) -> bool:
     # Not(ULE(f_sha3_N(slot), offset + base))
     if not (is_f_sha3_name(left.decl().name()) and is_app_of(right, Z3_OP_BADD)):
         return False
+    # note: z3 flattens nested additions, e.g., `offset + f_sha3_N(slot) + x`
+    if right.num_args() != 2:
+        return False
     offset, base = right.arg(0), right.arg(1)
 
     # Not(ULE(f_sha3_N(slot), offset + f_sha3_N(slot))) and offset < 2**64
